@@ -1709,7 +1709,10 @@ def passthrough_fields_rule(crate, prop, rule="C07.R7"):
                     else:
                         srcs = _setting_origin(crate, b, op)
                     good = [s for s in srcs if re.search(r"(Struct|Enum)Attr\.%s$" % k, s)]
-                    bad = [s for s in srcs if s not in good and (s == "constant" or re.match(r"^field \S+Attr\.\w+$", s) or s.startswith("aggregate"))]
+                    # positive evidence of a lost setting: a constant, a freshly made empty value (`Default::default()`,
+                    # `HashMap::new()`, `None`), or another field of an attribute
+                    bad = [s for s in srcs if s not in good and (s == "constant" or re.match(r"^field \S+Attr\.\w+$", s) or s.startswith("aggregate")
+                                                                 or re.search(r"^call .*(default::Default::default|::new|::with_capacity|::default)$", s))]
                     verdict = "ok" if good and len(good) == len(srcs) else "BAD" if bad else "undecided"
                     r.inst(fn=b.path, field=k, comes_from=sorted(set(srcs)), verdict=verdict, where="%s:%s" % (f, l))
                     if verdict == "BAD":
